@@ -59,6 +59,8 @@ var optWriterOps = map[string]string{
 
 func checkC03(c *Ctx) {
 	r := c.R
+	r.Rule("R10.1", "(shared with C10) a logger's writer set is its own: a child starts without one (package defaults until configured) and never shares its parent's set or its per-level map")
+	r.Rule("R08.1", "(shared with C08) told immediately before each Write: the sink keeps no per-logger memory of what it told a destination (no store to a logger field on the logging path)")
 	r.Rule("R03.1", "routing decision: the decision function extracted from dualWriter.Get over {lvl==Off, leveled!=nil, leveled[lvl] present, non-empty, lvl in error-device table} equals the documented routing (Off -> discard; a non-empty per-level list for exactly lvl takes precedence; error-class -> Error list; else Normal list); the error-device table initially holds exactly Panic, Fatal, Error, Warn, Fail; the table's reader and writers agree on presence vs value")
 	r.Rule("R03.2", "fallback: findWriter uses the logger's own writer set when it has one and the package default set otherwise, with the same level; dualWriter.Reset (the initial state) stores stdout to Normal, stderr to Error and nil to leveled")
 	r.Rule("R03.3", "operation frame table: each dualWriter method writes exactly its own list(s) and with the right shape: set = a fresh one-element list not derived from the old one; add = append(old same list, w); remove = the same list without the matched element; level operations touch only leveled[lvl] with the lvl parameter as key; reset writes all three")
@@ -80,12 +82,17 @@ func checkC03(c *Ctx) {
 		}
 		c03Routing(c, p, m)
 		c03Frames(c, p, m)
+		addOpsUnconditional(c, p, m)
+		writerSetNilSafe(c, p, m, "R03.4")
 		c03Wrappers(c, p, m)
 		c03AddRemove(c, p, m)
 		c03Notify(c, p, m)
 		c13Fanout(c, p, m)
 		onlySelectedWritten(c, p, m, "R03.2")
 		optionsInOrder(c, p, "R10.3")
+		c10Frames(c, p, m)
+		c10Creation(c, p, m)
+		c08Stores(c, p, m)
 	}
 	c.Floor["R03.1"] = 15
 	c.Floor["R03.3"] = 13
@@ -1629,4 +1636,184 @@ func enteredOnlyOverCompare2(b *ssa.BasicBlock, isW func(ssa.Value) bool, extra 
 		return true
 	}
 	return only(b)
+}
+
+// addOpsUnconditional (R03.3): an add/set operation of the writer set stores what it was given whenever it was given
+// a writer: the only conditions on the way to its stores are the nil test of the writer, the "is it already a
+// LogWriter" assertion and tests of the receiver's own fields (lazy creation of the per-level map). A test of
+// anything else (a registry lookup of the level, a flag, a comparison of the level) makes the outcome depend on the
+// order of configuration and registration calls.
+func addOpsUnconditional(c *Ctx, p *Prog, m *Model) {
+	r := c.R
+	n := 0
+	for name := range dwOps {
+		if !strings.HasPrefix(name, "Add") && !strings.HasPrefix(name, "Set") {
+			continue
+		}
+		fn := p.Method(p.Slog, "dualWriter", name)
+		if fn == nil {
+			continue
+		}
+		recv := receiver(fn)
+		var foreign []string
+		stores := 0
+		for _, b := range fn.Blocks {
+			has := false
+			for _, in := range b.Instrs {
+				switch x := in.(type) {
+				case *ssa.Store:
+					if fa, ok := x.Addr.(*ssa.FieldAddr); ok && fa.X == ssa.Value(recv) {
+						has = true
+					}
+				case *ssa.MapUpdate:
+					has = true
+				}
+			}
+			if !has {
+				continue
+			}
+			stores++
+			for _, g := range guardsOf(b) {
+				cond, _ := normCond(g.If.Cond)
+				okG := false
+				var leaves []ssa.Value
+				switch x := cond.(type) {
+				case *ssa.BinOp:
+					leaves = []ssa.Value{x.X, x.Y}
+				case *ssa.Extract:
+					switch t := x.Tuple.(type) {
+					case *ssa.TypeAssert:
+						okG = true
+					case *ssa.Lookup:
+						leaves = []ssa.Value{t.X}
+					}
+				}
+				if len(leaves) > 0 {
+					okG = true
+					for _, lv := range leaves {
+						lv = strip(lv)
+						if _, isC := lv.(*ssa.Const); isC {
+							continue
+						}
+						if prm, isP := lv.(*ssa.Parameter); isP && !m.isLevel(prm.Type()) {
+							continue // the writer given
+						}
+						if base, _, _, isF := fieldLoad(lv); isF && strip(base) == ssa.Value(recv) {
+							continue // the receiver's own field
+						}
+						if lc, isL := lv.(*ssa.Call); isL && isBuiltinCall(lc, "len") {
+							if base, _, _, isF := fieldLoad(strip(lc.Common().Args[0])); isF && strip(base) == ssa.Value(recv) {
+								continue
+							}
+						}
+						okG = false
+					}
+				}
+				if !okG {
+					foreign = append(foreign, m.guardDesc(g)+" at "+p.Pos(instrPos(g.If)))
+				}
+			}
+		}
+		if stores == 0 {
+			continue
+		}
+		n++
+		foreign = dedupStr(foreign)
+		sort.Strings(foreign)
+		r.Check(len(foreign) == 0, "R03.3", "op:dualWriter."+name+":unconditional", p.FuncPos(fn), "the stores depend only on the writer given and the receiver's own fields",
+			"whether "+name+" records the writer also depends on "+strings.Join(foreign, "; ")+": the same configuration call has a different effect depending on what was registered or configured before it")
+	}
+	if n == 0 {
+		r.Unk("R03.3", "op:unconditional", "-", "no add/set operation of the writer set found")
+	}
+}
+
+// writerSetNilSafe: a logger that was never given writers has no writer set (it uses the package defaults). Every
+// method call on a logger's writer set is therefore made under a test that the set exists, or after the function
+// created it; a call through the nil set is a nil dereference on exactly those loggers (children, the default).
+func writerSetNilSafe(c *Ctx, p *Prog, m *Model, rule string) {
+	r := c.R
+	n := 0
+	for _, fn := range p.RepoFuncs() {
+		if fn.Pkg != p.Slog {
+			continue
+		}
+		for _, cs := range callsIn(fn) {
+			cal := calleeOf(cs)
+			if cal == nil || cal.Signature.Recv() == nil || typeName(cal.Signature.Recv().Type()) != "dualWriter" || len(cs.Common().Args) == 0 {
+				continue
+			}
+			ra := strip(cs.Common().Args[0])
+			if _, isW := isFieldLoadOf(ra, "Entry", "writer"); !isW {
+				continue
+			}
+			n++
+			rk := exprKey(ra)
+			nonNilFact := func(fs []condFact) bool {
+				for _, f := range fs {
+					bo, ok := f.cond.(*ssa.BinOp)
+					if !ok || !isNilConst(bo.Y) || exprKey(strip(bo.X)) != rk {
+						continue
+					}
+					if (bo.Op == token.NEQ && f.taken) || (bo.Op == token.EQL && !f.taken) {
+						return true
+					}
+				}
+				return false
+			}
+			createsBefore := func(b *ssa.BasicBlock, upto ssa.Instruction) bool {
+				for _, in := range b.Instrs {
+					if in == upto {
+						break
+					}
+					if st, ok := in.(*ssa.Store); ok {
+						if fa, ok := st.Addr.(*ssa.FieldAddr); ok && typeName(fa.X.Type()) == "Entry" && nm(structOf(fa.X.Type()).Field(fa.Field)) == "writer" && !isNilConst(st.Val) {
+							return true
+						}
+					}
+					if c2, ok := in.(ssa.CallInstruction); ok {
+						if h := calleeOf(c2); h != nil && h.Pkg == p.Slog && h.Object() != nil && !h.Object().Exported() {
+							for _, fs := range fieldStores(h) {
+								if fs.Struct == "Entry" && fs.Field == "writer" {
+									return true
+								}
+							}
+						}
+					}
+				}
+				return false
+			}
+			busy := map[*ssa.BasicBlock]bool{}
+			var ensured func(b *ssa.BasicBlock, upto ssa.Instruction) bool
+			ensured = func(b *ssa.BasicBlock, upto ssa.Instruction) bool {
+				if createsBefore(b, upto) {
+					return true
+				}
+				if busy[b] || len(b.Preds) == 0 {
+					return false
+				}
+				busy[b] = true
+				defer func() { busy[b] = false }()
+				for _, pr := range b.Preds {
+					for _, alt := range factsOfEdge(pr, b) {
+						if nonNilFact(alt) {
+							continue
+						}
+						if !ensured(pr, nil) {
+							return false
+						}
+					}
+				}
+				return true
+			}
+			safe := ensured(cs.Block(), cs)
+			// the phi form: w := s.writer; if w == nil { w = new }: the receiver is then not a plain field load (skipped above)
+			key := fmt.Sprintf("nil-set:%s->%s#%d", shortName(fn), nm(cal), ordinalOfCallI(fn, cs))
+			r.Check(safe, rule, key, p.Pos(instrPos(cs)), "called under a test that the writer set exists (or after creating it)",
+				shortName(fn)+" calls "+nm(cal)+" on the logger's writer set without having tested that the set exists: for a logger that was never given writers (a child, the default logger) the set is nil and the call panics with a nil dereference")
+		}
+	}
+	if n == 0 {
+		r.Unk(rule, "nil-set", "-", "no method call on a logger's writer set found")
+	}
 }
